@@ -32,7 +32,7 @@ META = {
 
 def shards(tier, seed):
     out = []
-    phases = (2, 3) if tier == "quick" else (2, 3, 4)
+    phases = (2, 3)        # 4 phases: the saturation system (3x3 symbolic solve) was not decided by z3 within an hour
     for n in phases:
         out.append({"kind": "sat", "n": n})
     out.append({"kind": "sat-vector", "n": 2})
